@@ -60,6 +60,13 @@ def _validate(vtype, val, name):
             for item in val:
                 if isinstance(item, xlerrors.ExcelError):
                     raise item
+        if itype == func_xltypes.XlNumber:
+            # A reference to an empty cell is skipped like a text, it is
+            # not a zero (AVERAGE and MIN would count it otherwise).
+            val = [
+                item for item in val
+                if not isinstance(item, (func_xltypes.Blank, type(None)))
+            ]
         return tuple(filter(
             lambda x: x is not None,
             [_safe_validate(itype, item, name) for item in val]
